@@ -41,7 +41,7 @@ func zzCfg(name string) config.Interface {
 		DefaultLifetime: time.Duration(zzNondetUint16(name+".lifetime")) * time.Second,
 		UnicastOnly:   zzNondetBool(name + ".unicast_only"),
 		Verbose:       zzNondetBool(name + ".verbose"),
-		Preference:    ndp.Medium,
+		Preference:    []ndp.Preference{ndp.Medium, ndp.High, ndp.Low}[zzNondetChoice(name+".preference", 3)],
 		Plugins: []plugin.Plugin{
 			&plugin.Prefix{Prefix: netip.MustParsePrefix("2001:db8::/64"), OnLink: true, Autonomous: true,
 				ValidLifetime: 24 * time.Hour, PreferredLifetime: 4 * time.Hour},
@@ -64,6 +64,7 @@ func zzCheckRA(ra *ndp.RouterAdvertisement, cfg config.Interface, lifetime time.
 	zzAssert(ra.RouterLifetime == lifetime, id+"/router-lifetime")
 	zzAssert(zzAnd(zzAnd(ra.CurrentHopLimit == cfg.HopLimit, ra.ManagedConfiguration == cfg.Managed),
 		zzAnd(ra.OtherConfiguration == cfg.OtherConfig, zzAnd(ra.ReachableTime == cfg.ReachableTime, ra.RetransmitTimer == cfg.RetransmitTimer))), id+"/header")
+	zzAssert(ra.RouterSelectionPreference == cfg.Preference, id+"/preference")
 	zzAssert(len(ra.Options) == 2, id+"/options")
 }
 
